@@ -48,15 +48,31 @@ func harnessC18(n, mode, wset, sched, hist int) {
 	for i := 0; i < n; i++ {
 		g.Add(i)
 	}
-	var w [5][5]int
-	var present [5][5]bool
+	var w [8][8]int
+	var present [8][8]bool
 	desc := ""
+	// mode 3: a star from the source plus two edges with symbolic endpoints (deep heaps
+	// at a path count that stays affordable for n = 6, 7)
+	var extra [8][8]bool
+	if mode == 3 {
+		for k := 0; k < 2; k++ {
+			a := c18ids8[vnChoice("xa", n-1, k)+1]
+			b := c18ids8[vnChoice("xb", n-1, k)+1]
+			if a != b {
+				extra[a][b] = true
+			}
+		}
+	}
 	for i := 0; i < n; i++ {
 		for j := 0; j < n; j++ {
 			if i == j && mode != 0 {
 				continue
 			}
-			if mode != 1 {
+			if mode == 3 {
+				if !(i == 0 || extra[i][j]) {
+					continue
+				}
+			} else if mode != 1 {
 				if !vnBool("e", i, j) {
 					continue
 				}
@@ -122,14 +138,15 @@ func harnessC18(n, mode, wset, sched, hist int) {
 	vnCover("C18.search-after-mutation-checked")
 }
 
-var c18ids = [5]int{0, 1, 2, 3, 4}
+var c18ids = [8]int{0, 1, 2, 3, 4, 5, 6, 7}
+var c18ids8 = [8]int{0, 1, 2, 3, 4, 5, 6, 7}
 
-func c18Oracle(g *Graph, n, wset int, presentP *[5][5]bool, wP *[5][5]int, tag string) {
+func c18Oracle(g *Graph, n, wset int, presentP *[8][8]bool, wP *[8][8]int, tag string) {
 	present, w := *presentP, *wP
 	dist, edgeTo := g.Dijkstra(0) // the real code
 
 	// reachability from 0 (presence is concrete on each path)
-	var reach [5]bool
+	var reach [8]bool
 	reach[0] = true
 	for round := 0; round < n; round++ {
 		for i := 0; i < n; i++ {
@@ -142,7 +159,7 @@ func c18Oracle(g *Graph, n, wset int, presentP *[5][5]bool, wP *[5][5]int, tag s
 	}
 
 	// predecessor of each vertex (-1: none)
-	var pred [5]int
+	var pred [8]int
 	for v := 0; v < n; v++ {
 		pred[v] = -1
 		if p := edgeTo[v]; p != nil {
